@@ -218,6 +218,7 @@ type impl struct {
 	tag   Tag
 	mux   *plugin.MuxBroker
 	grpcb *plugin.GRPCBroker
+	calls int64 // requests this implementation answered
 }
 
 // process-wide state of the plugin process
@@ -228,6 +229,7 @@ var (
 
 func (im *impl) handle(c Cmd) (r Reply, err error) {
 	atomic.AddInt64(&procCounter, 1)
+	atomic.AddInt64(&im.calls, 1)
 	r.Tag = im.tag
 	switch c.Op {
 	case "tag":
